@@ -281,7 +281,8 @@ ssize_t _whawty_write_data(int sock, const void* data, size_t len, int timeout)
       return ret;
     }
 
-    ssize_t nwritten = write(sock, (void*)(data + offset), len - offset);
+    // MSG_NOSIGNAL: a peer that has already closed must not raise SIGPIPE in the application using PAM
+    ssize_t nwritten = send(sock, (void*)(data + offset), len - offset, MSG_NOSIGNAL);
     if(nwritten < 0 || (nwritten == 0 && errno != EINTR)) {
       return offset;
     }
